@@ -105,6 +105,27 @@ def standin_independence(tier, seed):
         if changed:
             violations.append(dict(key=f"{kind}: personalised parameters of the other individuals changed when only the first individual's data changed",
                                    individuals=changed, before=str(p1[changed[0]]), after=str(p4[changed[0]])))
+        # order-equivariance of the personalisation: the same cohort listed in another (non-sorted) order gives every individual
+        # the same parameters, up to the optimiser's sensitivity to its randomly drawn starting point (a few 1e-3 here);
+        # a mix-up between individuals moves them by whole units
+        order = [ids[k] for k in perm]
+        if order == sorted(order):
+            order = order[::-1]
+        dfo = pd.concat([df[df["ID"] == sid] for sid in order])
+        i5, p5 = personalize(model, dfo, seed)
+        evals += 1
+        distinct.add((kind, "perso-order"))
+        if i5 != order:
+            violations.append(dict(key=f"{kind}: personalisation keys {i5} are not the input identifiers in order {order}"))
+        else:
+            def far(a, b):
+                fa = [x for v in a.values() for x in (v if isinstance(v, list) else [v])]
+                fb = [x for v in b.values() for x in (v if isinstance(v, list) else [v])]
+                return any(abs(x - y) > 0.05 + 0.01 * abs(x) for x, y in zip(fa, fb))
+            moved = [sid for sid in ids if far(p1[sid], p5[sid])]
+            if moved:
+                violations.append(dict(key=f"{kind}: personalised parameters depend on the order in which the individuals are listed",
+                                       individuals=moved, order=order, listed_first=str(p1[moved[0]]), reordered=str(p5[moved[0]])))
         if tier != "quick" or kind == "logistic":
             i3, p3 = personalize(model, df, seed, n_jobs=2)
             evals += 1
